@@ -327,7 +327,24 @@ func (e *env) renew() {
 	e.clean = false
 }
 
-func (e *env) close() { os.RemoveAll(e.tmp) }
+// renewDir moves on to a fresh package directory (used after a failed Load:
+// the handlers return on the first error while other goroutines of the same
+// Load may still be writing below the old directory).
+func (e *env) renewDir() {
+	e.gen++
+	e.pkg = fmt.Sprintf("pkg%d", e.gen)
+	e.pkgDir = filepath.Join(e.ws, e.pkg)
+	e.clean = false
+}
+
+func (e *env) close() {
+	for i := 0; i < 5; i++ {
+		if os.RemoveAll(e.tmp) == nil {
+			return
+		}
+		time.Sleep(200 * time.Millisecond) // stragglers of a failed Load
+	}
+}
 
 func (e *env) target(c caseSpec) *model.Target {
 	t := &model.Target{Label: label.TL(e.pkg, "t"), ChangeHash: "change-hash", Command: "true"}
@@ -789,7 +806,12 @@ var (
 	casesRun    int64
 	perState    = map[string]int64{}
 	setupBroken int
+	hangs       int
 )
+
+const maxHangs = 3
+
+var skippedAfterHangs int
 
 type panicError struct{ msg string }
 
@@ -903,16 +925,19 @@ func (e *env) runPair(c caseSpec, res *gen.TargetResult, expected listing, m mut
 	if hung {
 		vrep.Violation("load-hang:"+kind+":"+m.State, fmt.Sprintf("LoadOutputs did not return within %s; cached %s; prior state: %s", hangCeiling, c, stateDesc), replay)
 		vrep.Outcomes.Add(c.Family + "|hang")
+		hangs++
 		e.renew()
 		return
 	}
-	if err != nil && len(c.Outs) > 1 {
-		// LoadOutputs returns on the first failing output while the other outputs
-		// may still be loading in the registry's pool: abandon that package directory.
-		vrep.Outcomes.Add(fmt.Sprintf("%s|%s|multi-output", kind, errClass(err)))
-		e.renew()
-	}
 	got := takeListing(e.pkgDir)
+	if err != nil {
+		// LoadOutputs returns on the first failing output / entry while other
+		// goroutines of the same call may still be writing: abandon that directory.
+		e.renewDir()
+		if len(c.Outs) > 1 {
+			vrep.Outcomes.Add(fmt.Sprintf("%s|%s|multi-output", kind, errClass(err)))
+		}
+	}
 	equal := got.equal(expected)
 	untouched := got.equal(prior)
 	if err == nil || len(c.Outs) == 1 {
@@ -959,9 +984,9 @@ func (e *env) runPair(c caseSpec, res *gen.TargetResult, expected listing, m mut
 			}
 			sig = k + ":" + class
 			if got.restrict(o.Path).equal(prior.restrict(o.Path)) {
-				// Load left this output exactly as it found it: the skip-if-unchanged
-				// shortcut (or nothing at all) decided that no work was needed.
-				sig += ":restore-skipped"
+				// After Load this output is exactly as Load found it: the skip-if-unchanged
+				// shortcut fired wrongly, or the rewrite reproduced the stale state.
+				sig += ":left-as-found"
 			}
 		}
 		if seen[sig] {
@@ -1015,6 +1040,10 @@ func (e *env) runCase(c caseSpec) {
 	if setupBroken > 0 {
 		return // reported once as a broken check; do not flood
 	}
+	if hangs >= maxHangs {
+		skippedAfterHangs++
+		return
+	}
 	if casesRun%64 == 63 {
 		// DirectoryOutputHandler.downloadFile never closes the files it creates;
 		// only the garbage collector's finalizers release those descriptors.
@@ -1027,6 +1056,9 @@ func (e *env) runCase(c caseSpec) {
 	}
 	casesRun++
 	for _, m := range mutationsFor(c) {
+		if hangs >= maxHangs {
+			return
+		}
 		e.runPair(c, res, expected, m)
 	}
 }
@@ -1278,6 +1310,9 @@ func TestVerif(t *testing.T) {
 	}
 	if setupBroken > 0 {
 		vrep.Broken("%d harness set-up failures", setupBroken)
+	}
+	if hangs >= maxHangs {
+		vrep.Cap("shard %d stopped after %d hung LoadOutputs calls (each reported as a violation); %d cases not run", shard, hangs, skippedAfterHangs)
 	}
 	vrep.Done()
 }
